@@ -188,6 +188,9 @@ pub struct Ext {
     pub markers: BTreeMap<usize, usize>,
     /// make the addition after the perturbed one use the same type (two data, one type name)
     pub twin: bool,
+    /// field type of the perturbed addition (menu index), instead of the one the history draws
+    #[serde(default)]
+    pub force_type: Option<usize>,
 }
 
 pub const MARKERS: [&str; 5] =
@@ -289,6 +292,11 @@ pub fn build_ext(h: &RHistory, ext: &Ext) -> Built {
                 }
                 if let Some(t) = twin_type.take() {
                     idx = t;
+                }
+                if let (Some((ord, _, _)), Some(t)) = (ext.perturb, ext.force_type) {
+                    if ord == ordinal && !(h.fragsel & 2 == 2 && !MENU[t].serde_ok) && !(h.fragsel & 1 == 1 && !MENU[t].clone_ok) {
+                        idx = t;
+                    }
                 }
                 if let Some(mk) = ext.markers.get(&ordinal) {
                     idx = MARKER_BASE + mk % MARKERS.len();
